@@ -127,6 +127,9 @@ def expected_class(cfg):
     return "SphericalDroplet"
 
 
+_SHARED_LSQ: dict = {"max_nfev": 400}
+
+
 def run(case, rec):
     import droplets
     from pde import ScalarField
@@ -141,6 +144,11 @@ def run(case, rec):
         kwargs["num_processes"] = 2  # the number of worker processes is not part of the requested model
         rec.count("refined_with_worker_processes")
     label = f"config={cfg} variant={variant}"
+    if cfg["refine"] and case.get("shared_options"):
+        # one dictionary of solver options serves every refining request of the session (whatever model it asks for)
+        kwargs["refine_args"] = {"least_squares_params": _SHARED_LSQ}
+        rec.count("requests_sharing_one_least_squares_params_dict")
+        label += " least_squares_params shared with earlier requests"
     if case.get("numpy_modes"):
         # the mode count as a numpy integer (e.g. taken from an array of settings or from len() of an array shape)
         kwargs["modes"] = [np.int64, np.int32, np.intp, np.uint8][case["numpy_modes"] % 4](cfg["modes"])
@@ -225,6 +233,8 @@ def run_shard(spec, rec):
         case = {"kind": "configs", "config": allc[i], "variant": spec["variant"], "seed": spec["seed"]}
         if (i * 3 + spec["seed"]) % 5 == 2:
             case["numpy_modes"] = 1 + (i + spec["seed"]) % 4
+        if (i + spec["seed"]) % 3 == 0:
+            case["shared_options"] = True
         if allc[i]["refine"] and (i * 11 + spec["seed"]) % 6 == 1:
             case["mr_between"] = True
         if allc[i]["refine"] and (i * 7 + spec["seed"]) % 16 == 3:
